@@ -242,16 +242,33 @@ def rule_r3(prog, res) -> None:
     if pp is None:
         raise AnalysisError("C02.R3: CatalogWriter.process_patches vanished")
     res.touch(pp)
-    loops = [x for x in walk_no_nested(pp.node) if isinstance(x, ast.For) and "items" in unparse(x.iter)]
+    from .. import symx
+
+    pparam = pp.param_names()[1]
     good = False
-    for lp in loops:
-        if isinstance(lp.target, ast.Tuple) and len(lp.target.elts) == 2:
-            k, v = (e.id if isinstance(e, ast.Name) else None for e in lp.target.elts)
-            for c in ast.walk(lp):
-                if isinstance(c, ast.Call) and isinstance(c.func, ast.Attribute) and c.func.attr == "process_chunk":
-                    gw = c.func.value
-                    if isinstance(gw, ast.Call) and gw.args and isinstance(gw.args[0], ast.Name) and gw.args[0].id == k and c.args and isinstance(c.args[0], ast.Name) and c.args[0].id == v:
-                        good = True
+    seen_pc = 0
+    for p in symx.explore(prog, pp, inline=symx.inline_private_helpers(prog, public={"get_writer"})):
+        for ev in p.calls("process_chunk"):
+            seen_pc += 1
+            recv = ev.expr.func.value
+            arg = ev.expr.args[0] if ev.expr.args else None
+            key = recv.args[0] if isinstance(recv, ast.Call) and (dotted(recv.func) or "").split(".")[-1] == "get_writer" and recv.args else None
+
+            def item_part(e, idx):
+                """e == ELEM(<param>.items())[idx]"""
+                if isinstance(e, ast.Subscript) and isinstance(e.slice, ast.Constant) and e.slice.value == idx:
+                    el = e.value
+                    if isinstance(el, ast.Call) and isinstance(el.func, ast.Name) and el.func.id == symx.ELEM and el.args:
+                        it = el.args[0]
+                        return unparse(it) if isinstance(it, ast.Call) and isinstance(it.func, ast.Attribute) and it.func.attr == "items" and isinstance(it.func.value, ast.Name) and it.func.value.id == pparam else None
+                return None
+
+            a_, b_ = (item_part(key, 0) if key is not None else None), (item_part(arg, 1) if arg is not None else None)
+            good = a_ is not None and a_ == b_
+            if not good:
+                break
+    if seen_pc == 0:
+        raise AnalysisError("C02.R3: CatalogWriter.process_patches no longer hands chunks to PatchWriter.process_chunk")
     if good:
         res.ok("C02.R3", res.site(pp), "each (patch id, records) item goes to the writer of that id")
     else:
@@ -259,16 +276,21 @@ def rule_r3(prog, res) -> None:
     gw = cw.methods.get("get_writer")
     if gw is not None:
         res.touch(gw)
-        stores = [x for x in walk_no_nested(gw.node) if isinstance(x, ast.Assign) and any(isinstance(t, ast.Subscript) and "writers" in unparse(t.value) for t in x.targets)]
         pid = gw.param_names()[1]
-        if stores and all(isinstance(s.targets[0].slice, ast.Name) and s.targets[0].slice.id == pid for s in stores):
-            ctor = [c for c in calls_in(gw) if any(k.name == "PatchWriter" for k in prog.resolve_call(gw, c).classes())]
-            if ctor and all(depends_on(gw.node, c.args[0] if c.args else c, lambda x: isinstance(x, ast.Name) and x.id == pid) for c in ctor):
+        is_pid = lambda y: isinstance(y, ast.Name) and y.id == pid  # noqa: E731
+        gpaths = symx.explore(prog, gw, inline=symx.inline_private_helpers(prog))
+        stores = [ev for p in gpaths for ev in p.events if ev.kind == "store" and isinstance(ev.expr, ast.Subscript) and "writers" in unparse(ev.expr.value)]
+        if stores and all(isinstance(ev.expr.slice, ast.Name) and ev.expr.slice.id == pid for ev in stores):
+            ctor = [ev for p in gpaths for ev in p.calls() if any(k.name == "PatchWriter" for k in prog.resolve_call(ev.fi, ev.node).classes())]
+            if ctor and all(symx.mentions(ev.expr.args[0] if ev.expr.args else ev.expr, is_pid) for ev in ctor):
                 res.ok("C02.R3", res.site(gw), "new writers are registered under, and write into the directory of, the requested patch id")
             else:
                 res.violation("C02.R3", gw, gw.node, "a new patch writer does not write into the directory of the requested patch id", key_extra="writer-dir")
         else:
             res.violation("C02.R3", gw, gw.node, "a new patch writer is not registered under the requested patch id", key_extra="writer-registration")
+        rets = [p for p in gpaths if p.outcome == "return"]
+        if any(p.value is None or not (("writers" in unparse(p.value) and symx.mentions(p.value, is_pid)) or any(k.name == "PatchWriter" for y in ast.walk(p.value) if isinstance(y, ast.Call) for k in prog.resolve_call(gw, y).classes() if y in list(ast.walk(gw.node))) or symx.calls_named(p.value, "PatchWriter")) for p in rets):
+            res.violation("C02.R3", gw, gw.node, "get_writer can return something else than the writer registered for the requested patch id", key_extra="writer-returned")
 
 
 def rule_r4(prog, res) -> None:
